@@ -105,6 +105,27 @@ fn voicing(engine0: &Engine, rng: &mut Rng, corpus: &Corpus, evs: &mut Vec<Value
         evs.push(json!({"ev": "render", "equal": digest(&w) == digest(&direct), "frames": lf0.len(), "voiced_below_20hz": low,
                         "unvoiced": lf0.iter().filter(|f| f[0] == NODATA).count()}));
     }
+    // wiring of one engine call: the hooked trajectories are what the public pipeline (Models -> DurationEstimator -> MlpgAdjust per
+    // stream, each with its own GV weight and threshold, the half tone on the log-F0 stream only) gives under the same condition
+    {
+        let mut e3 = engine0.clone();
+        random_condition(&mut e3, rng, true);
+        let (sp, lf0, lpf) = trajectories(&e3, &lines)?;
+        let hooked = [sp, lf0, lpf];
+        let c = &e3.condition;
+        let m3 = Models::new(&labels, &e3.voices, c.get_interporation_weight());
+        let d3 = DurationEstimator::new(m3.duration(), m3.nstate()).create(c.get_speed());
+        let mut equal = true;
+        for s in 0..e3.voices.global_metadata().num_streams {
+            let mut ms = m3.model_stream(s);
+            if s == 1 {
+                ms.stream.apply_additional_half_tone(c.get_additional_half_tone());
+            }
+            let t = jbonsai::mlpg_adjust::MlpgAdjust::new(c.get_gv_weight(s), c.get_msd_threshold(s), ms).create(&d3);
+            equal &= digest2(&t) == digest2(&hooked[s]);
+        }
+        evs.push(json!({"ev": "isolated", "what": "wiring", "spectrum_equal": equal, "lpf_equal": equal}));
+    }
     // thresholds on streams that have no voicing decision (spectrum, low-pass) are inert over the whole range [0, 1]
     {
         let mut e2 = engine0.clone();
